@@ -8,7 +8,7 @@ from . import core
 from .core import cq_bool, cq_list, cq_nat
 
 THEOREMS = ["C02_safe_partial", "C02_head_well_moded", "C02_refuted_deferred", "C02_head_on_witness",
-            "C02_refuted_corrupt", "C02_refuted_split_lookup", "C02_lock_mutex", "C02_busy_only_on_upgrade", "C02_example"]
+            "C02_refuted_corrupt", "C02_refuted_split_lookup", "C02_mutex", "C02_no_deadlock", "C02_m1_rejected", "C02_lock_mutex", "C02_busy_only_on_upgrade", "C02_example"]
 
 KNOWN_TAG = "corrupt-db-concurrent-recovery"
 
@@ -499,7 +499,8 @@ def run(ctx):
                "(* Tie_C02: the side condition of C02_safe_partial on the regenerated skeleton *)\n"
                "Eval vm_compute in (side_ok gen_prog).\n"
                "Eval vm_compute in (match ty gen_prog MClosed with Some MClosed => true | _ => false end).\n"
-               "Eval vm_compute in (Nat.eqb (size gen_prog) (size prog_head)).\n" % cq_list(prog))
+               "Eval vm_compute in (Nat.eqb (size gen_prog) (size prog_head)).\n"
+               "Eval vm_compute in (sch_ok gen_prog).\n" % cq_list(prog))
         ok, out, err = core.coq_run(ctx, "Gen", gen)
         ctx.oblige("tie:T8-skeleton-compiles", ok, err[-800:])
         if ok:
@@ -508,7 +509,10 @@ def run(ctx):
             ctx.oblige("tie:side_ok(regenerated skeleton): no write under a SHARED-only transaction, no remove "
                        "outside the corruption handler, INSERT OR REPLACE, no unpacked re-read of a cached row",
                        vals[:2] == ["true", "true"], "%s" % (vals,))
-            ctx.notes["skeleton_same_size_as_static_copy"] = vals[2:] == ["true"]
+            ctx.notes["skeleton_same_size_as_static_copy"] = vals[2:3] == ["true"]
+            ctx.oblige("tie:sch_ok(regenerated skeleton): DROP TABLE only under a layout read of the same write "
+                       "transaction, CREATE only after the own DROP, tables known good where used",
+                       vals[3:4] == ["true"], "%s" % (vals,))
         kw_ok = bool(kws) and all(k.get("isolation_level") == "None" and
                                   ("timeout" not in k or _num(k["timeout"]) >= 5.0) for k in kws)
         ctx.oblige("tie:connect(isolation_level=None, busy timeout >= default 5 s)", kw_ok, json.dumps(kws))
